@@ -45,7 +45,8 @@ def run_viewer(data, workdir, options=()):
     out, err = io.StringIO(), io.StringIO()
     try:
         with contextlib.redirect_stdout(out), contextlib.redirect_stderr(err):
-            rc = pool.with_watchdog(HORIZON, cli.main, [path, "-q"] + list(options))
+            with vc2run.fresh_process_int_limit():
+                rc = pool.with_watchdog(HORIZON, cli.main, [path, "-q"] + list(options))
     except vc2run.OutOfScope:
         return "oos", ""
     except pool.Watchdog:
